@@ -1079,6 +1079,7 @@ def main(ck):
   ck.run_hypothesis(test, st.tuples(gen_act.act_models('tree'), mg.state_seed()), n_tree, name='tree')
   ck.run_hypothesis(test, st.tuples(gen_act.act_models('contact'), mg.state_seed()), n_con, name='contact')
   ck.extra['worst_error_over_scale'] = {k: float('%.3g' % v) for k, v in sorted(STATS.items())}
+  print('[C27] worst error/scale:', ck.extra['worst_error_over_scale'], 'discards:', dict(ck.discards), flush=True)
   ck.extra['label_histogram_full'] = dict(sorted(ALL_LABELS.items()))
   ck.extra['tolerances'] = dict(K_FORCE=K_FORCE, K_LEN=K_LEN, K_MOM=K_MOM, K_GEO=K_GEO, K_FD=K_FD, FD_H=FD_H, K_QFRC=K_QFRC)
 
